@@ -1963,7 +1963,6 @@ class WassersteinVectorizer(BaseEstimator, TransformerMixin):
                 )
             if type(X) is np.ndarray:
                 X = scipy.sparse.csr_matrix(X)
-            X = normalize(X.astype(np.float64), norm="l1")
 
             basis_transformed_matrix = X @ self.vectors_
             basis_transformed_matrix /= np.power(
